@@ -173,6 +173,20 @@ func (s *script) names(c string) {
 	s.add(":srv 366 %s %s :End", s.me, c)
 }
 
+// libGoroutines: the stacks of all goroutines that are inside package girc (or were created
+// by it), "" when there is none.
+func libGoroutines() string {
+	var b strings.Builder
+	pprof.Lookup("goroutine").WriteTo(&b, 2)
+	var out []string
+	for _, g := range strings.Split(b.String(), "\n\n") {
+		if strings.Contains(g, "github.com/lrstanley/girc") && !strings.Contains(g, "main.libGoroutines") {
+			out = append(out, g)
+		}
+	}
+	return strings.Join(out, "\n\n")
+}
+
 var sink int64
 
 func use(xs ...interface{}) { atomic.AddInt64(&sink, int64(len(xs))) }
@@ -262,9 +276,10 @@ func senders(c *girc.Client, r *rand.Rand) {
 	}
 	switch r.Intn(7) {
 	case 0:
-		c.Cmd.Message("#one", "hi")
+		c.Cmd.Message("#one", "{red,blue}hi{c} {b}there{b} {green,black}x{c}")
 	case 1:
-		c.Cmd.Notice("bob", "psst")
+		c.Cmd.Notice("bob", "{yellow,red}psst{c}")
+		use(girc.Fmt("{teal,white}direct{c}"), girc.TrimFmt("{red}x"))
 	case 2:
 		c.Cmd.Who("#two")
 	case 3:
@@ -313,7 +328,8 @@ func registrars(c *girc.Client, r *rand.Rand) {
 func main() {
 	flag.Parse()
 	r := rand.New(rand.NewSource(*seed))
-	cfg := girc.Config{Server: "dummy.int", Port: 6667, Nick: "hunter", User: "hunt", Name: "race hunt", AllowFlood: *flood}
+	cfg := girc.Config{Server: "dummy.int", Port: 6667, Nick: "hunter", User: "hunt", Name: "race hunt", AllowFlood: *flood,
+		GlobalFormat: true} // Send runs the text through Fmt
 	if !*flood {
 		// Through the rate limiter every Send sleeps a second or more once a few lines were
 		// sent: keep the round short (the fake server does not answer PING, and handlers that
@@ -497,6 +513,26 @@ func main() {
 	phase.Store("stopping workers")
 	atomic.StoreInt32(&stop, 1)
 	wg.Wait()
+	// every goroutine the library started must be gone some time after the last connection was
+	// closed (background handlers, rate-limit sleeps and handleConnect's 2 s nap get a grace period)
+	phase.Store("waiting for library goroutines to finish")
+	var parked string
+	for i := 0; i < 100; i++ {
+		tick(nworkers)
+		parked = libGoroutines()
+		if parked == "" {
+			break
+		}
+		time.Sleep(200 * time.Millisecond)
+	}
 	close(finished)
+	if parked != "" {
+		msg := fmt.Sprintf("LEAK: goroutines of the library are still parked 20 s after the last connection was closed (seed %d, GOMAXPROCS %d)\n%s\n", *seed, runtime.GOMAXPROCS(0), parked)
+		os.Stderr.WriteString(msg)
+		if *dumpTo != "" {
+			_ = os.WriteFile(*dumpTo, []byte(msg), 0o644)
+		}
+		os.Exit(5)
+	}
 	fmt.Printf("racehunt: completed seed=%d rounds=%d events=%d GOMAXPROCS=%d sink=%d\n", *seed, *rounds, *events, runtime.GOMAXPROCS(0), atomic.LoadInt64(&sink))
 }
